@@ -49,6 +49,7 @@ def run_property(pid, tier, m=None, configs=None, quiet=False):
         return 2
     os.makedirs(VIOL, exist_ok=True)
     known = load_known()
+    deps = registry.DEPENDS.get(pid, [])
     cfgs = [()]
     if tier == 'thorough':
         cfgs.append(('CO_SSDO_N=2', 'CO_CSDO_N=2'))
@@ -78,6 +79,9 @@ def run_property(pid, tier, m=None, configs=None, quiet=False):
             nunits = max(nunits, len(mm.tus))
             for rule in spec['rules']:
                 registry.run_rule(rule, ctx, tier)
+            for dep in deps:
+                for rule in registry.PROPERTIES[dep]['rules']:
+                    registry.run_rule(rule, ctx, tier)
             cfg_names.append(' '.join(defs) or 'default')
         except AnalysisBroken as e:
             broken.append('[%s] %s' % (' '.join(defs) or 'default', e))
@@ -86,7 +90,10 @@ def run_property(pid, tier, m=None, configs=None, quiet=False):
             if pid in props or not props:
                 broken.append('[%s] %s' % (' '.join(defs) or 'default', msg))
         for f in ctx.findings:
-            if pid in f.props or (f.note and not f.props and f.rule in spec.get('note_rules', ())):
+            via = [d for d in deps if d in f.props]
+            if pid not in f.props and via and not f.note:
+                f.via = via[0]
+            if pid in f.props or (via and not f.note) or (f.note and not f.props and f.rule in spec.get('note_rules', ())):
                 if not any(g.ident() == f.ident() and g.note == f.note for g in all_findings):
                     all_findings.append(f)
         for o in ctx.obligations.get(pid, []):
@@ -99,6 +106,7 @@ def run_property(pid, tier, m=None, configs=None, quiet=False):
                 exceptions.append(e)
     # ---- compare with known findings
     open_known = [k for k in known.get('findings', []) if k.get('property') == pid]
+    dep_known = [k for k in known.get('findings', []) if k.get('property') in deps]
     matched = []
     violations = []
     notes = []
@@ -107,7 +115,7 @@ def run_property(pid, tier, m=None, configs=None, quiet=False):
             notes.append(f)
             continue
         hit = None
-        for k in open_known:
+        for k in open_known + ([kk for kk in dep_known if kk.get('property') == getattr(f, 'via', None)]):
             if k['rule'] == f.rule and k['function'] == f.func and k['key'] == f.key:
                 hit = k
         if hit is not None:
@@ -116,7 +124,8 @@ def run_property(pid, tier, m=None, configs=None, quiet=False):
             violations.append(f)
     out = []
     for (k, f) in matched:
-        out.append('KNOWN-FINDING: property=%s %s %s %s at %s: %s' % (pid, f.rule, f.func, f.key, f.loc, k.get('what', f.msg)))
+        out.append('KNOWN-FINDING: property=%s %s%s %s %s at %s: %s' % (
+            pid, ('(via %s) ' % f.via) if getattr(f, 'via', None) else '', f.rule, f.func, f.key, f.loc, k.get('what', f.msg)))
     for k in open_known:
         if not any(k is mk for (mk, f) in matched):
             out.append('NOTE known finding not reproduced on this tree (repaired or rule changed): %s %s %s'
@@ -134,7 +143,8 @@ def run_property(pid, tier, m=None, configs=None, quiet=False):
             json.dump(rec, fh, indent=1)
         vpaths.append(path)
         out.append('VIOLATION property=%s replay=%s' % (pid, path))
-        out.append('  %s [%s] %s at %s: %s' % (f.rule, f.func, f.key, f.loc, f.msg))
+        out.append('  %s [%s] %s at %s: %s%s' % (f.rule, f.func, f.key, f.loc,
+                                                 ('(via %s: this property rests on it) ' % f.via) if getattr(f, 'via', None) else '', f.msg))
     for b in broken:
         out.append('ANALYSIS-BROKEN property=%s %s' % (pid, b))
     # ---- evidence
@@ -155,7 +165,7 @@ def run_property(pid, tier, m=None, configs=None, quiet=False):
         'seed': seed,
         'level': 'other',
         'coverage': {
-            'explanation': spec['explanation'],
+            'explanation': spec['explanation'] + ((' This property rests on %s: the rules of those properties are run as well and their findings are reported here as "via".' % ', '.join(deps)) if deps else ''),
             'evaluations': max(n_ob, 1),
             'distinct_nontrivial': len(distinct),
             'rule': 'one evaluation = one static obligation (rule instance at a site) examined on /repo\'s current '
